@@ -144,6 +144,8 @@ class MXCSRRegister:
                 new_value &= ~(1 << 6)
 
         new = ctypes.c_uint32(new_value)
+        # bits requested to change; all other bits must keep the value they have when the context is entered
+        mask = (0 if RN is None else 3 << 13) | (0 if FZ is None else 1 << 15) | (0 if DAZ is None else 1 << 6)
 
         class context(contextlib.ContextDecorator):
             def __init__(self, register, desired_state):
@@ -154,7 +156,8 @@ class MXCSRRegister:
             def __enter__(self):
                 assert self.saved_state is None
                 self.saved_state = self.register.get_mxcsr()
-                self.register.set_mxcsr(self.desired_state)
+                entry_value = self.saved_state.value
+                self.register.set_mxcsr(ctypes.c_uint32((entry_value & ~mask) | (self.desired_state.value & mask)))
 
             def __exit__(self, exc_type, exc, exc_tb):
                 assert self.saved_state is not None
